@@ -41,10 +41,12 @@ Definition MO_PLAIN := -1.          (* a plain (non-atomic) read: not reported b
 Definition DVX_CREATE := 110.       (* pthread_create succeeded: ea = the new thread (not reported by the hook) *)
 Definition OP_PUSH := 0.            (* DVU_CALL ea: dispatch_async_f & co. reaching _dispatch_root_queue_push *)
 Definition OP_MON := 1.             (* DVU_CALL ea: a monitor pass decided to poke; eb = floor *)
-Definition FLOOR_B := 536870912.    (* |floor| <= 2^29: no int overflow in t_count - floor *)
+Definition FLOOR_B := 536870912.    (* -2^29 <= floor <= 0: no int overflow in t_count - floor *)
 
 Definition is_item (x : Z) : bool := (0 <? x) && (x <? MED).
-Definition floor_ok (f : Z) : bool := (- FLOOR_B <=? f) && (f <=? FLOOR_B).
+(* the floors the code passes are 0 (every poke of the queue code), target - WORKQ_MAX_TRACKED_TIDS and
+   max (-target, target - WORKQ_MAX_TRACKED_TIDS) (the monitor): never positive on machines with at most 255 cpus *)
+Definition floor_ok (f : Z) : bool := (- FLOOR_B <=? f) && (f <=? 0).
 
 Definition ev_at (e : event) (k ord obj off : Z) : bool :=
   (ek e =? k) && (eord e =? ord) && (eobj e =? obj) && (eoff e =? off).
